@@ -73,26 +73,27 @@ Record stage := mkst {
   vq : list nat;
   fq : list nat;
   ctime : Z;
-  ready : bool
+  ready : bool;
+  flcks : list (name * list Z)     (* <target>.lck left in the final directory by a crash inside fileutil.Move *)
 }.
 
-Definition init_stage : stage := mkst [] [] [] [] [] [] [] [] [] [] [] [] 0 true.
+Definition init_stage : stage := mkst [] [] [] [] [] [] [] [] [] [] [] [] 0 true [].
 
 (* field setters *)
-Definition set_parts v s := mkst v (fulls s) (waits s) (cmps s) (finals s) (rlog s) (heap s) (cache s) (wait s) (locks s) (vq s) (fq s) (ctime s) (ready s).
-Definition set_fulls v s := mkst (parts s) v (waits s) (cmps s) (finals s) (rlog s) (heap s) (cache s) (wait s) (locks s) (vq s) (fq s) (ctime s) (ready s).
-Definition set_waits v s := mkst (parts s) (fulls s) v (cmps s) (finals s) (rlog s) (heap s) (cache s) (wait s) (locks s) (vq s) (fq s) (ctime s) (ready s).
-Definition set_cmps v s := mkst (parts s) (fulls s) (waits s) v (finals s) (rlog s) (heap s) (cache s) (wait s) (locks s) (vq s) (fq s) (ctime s) (ready s).
-Definition set_finals v s := mkst (parts s) (fulls s) (waits s) (cmps s) v (rlog s) (heap s) (cache s) (wait s) (locks s) (vq s) (fq s) (ctime s) (ready s).
-Definition set_rlog v s := mkst (parts s) (fulls s) (waits s) (cmps s) (finals s) v (heap s) (cache s) (wait s) (locks s) (vq s) (fq s) (ctime s) (ready s).
-Definition set_heap v s := mkst (parts s) (fulls s) (waits s) (cmps s) (finals s) (rlog s) v (cache s) (wait s) (locks s) (vq s) (fq s) (ctime s) (ready s).
-Definition set_cache v s := mkst (parts s) (fulls s) (waits s) (cmps s) (finals s) (rlog s) (heap s) v (wait s) (locks s) (vq s) (fq s) (ctime s) (ready s).
-Definition set_wait v s := mkst (parts s) (fulls s) (waits s) (cmps s) (finals s) (rlog s) (heap s) (cache s) v (locks s) (vq s) (fq s) (ctime s) (ready s).
-Definition set_locks v s := mkst (parts s) (fulls s) (waits s) (cmps s) (finals s) (rlog s) (heap s) (cache s) (wait s) v (vq s) (fq s) (ctime s) (ready s).
-Definition set_vq v s := mkst (parts s) (fulls s) (waits s) (cmps s) (finals s) (rlog s) (heap s) (cache s) (wait s) (locks s) v (fq s) (ctime s) (ready s).
-Definition set_fq v s := mkst (parts s) (fulls s) (waits s) (cmps s) (finals s) (rlog s) (heap s) (cache s) (wait s) (locks s) (vq s) v (ctime s) (ready s).
-Definition set_ctime v s := mkst (parts s) (fulls s) (waits s) (cmps s) (finals s) (rlog s) (heap s) (cache s) (wait s) (locks s) (vq s) (fq s) v (ready s).
-Definition set_ready v s := mkst (parts s) (fulls s) (waits s) (cmps s) (finals s) (rlog s) (heap s) (cache s) (wait s) (locks s) (vq s) (fq s) (ctime s) v.
+Definition set_parts v s := mkst v (fulls s) (waits s) (cmps s) (finals s) (rlog s) (heap s) (cache s) (wait s) (locks s) (vq s) (fq s) (ctime s) (ready s) (flcks s).
+Definition set_fulls v s := mkst (parts s) v (waits s) (cmps s) (finals s) (rlog s) (heap s) (cache s) (wait s) (locks s) (vq s) (fq s) (ctime s) (ready s) (flcks s).
+Definition set_waits v s := mkst (parts s) (fulls s) v (cmps s) (finals s) (rlog s) (heap s) (cache s) (wait s) (locks s) (vq s) (fq s) (ctime s) (ready s) (flcks s).
+Definition set_cmps v s := mkst (parts s) (fulls s) (waits s) v (finals s) (rlog s) (heap s) (cache s) (wait s) (locks s) (vq s) (fq s) (ctime s) (ready s) (flcks s).
+Definition set_finals v s := mkst (parts s) (fulls s) (waits s) (cmps s) v (rlog s) (heap s) (cache s) (wait s) (locks s) (vq s) (fq s) (ctime s) (ready s) (flcks s).
+Definition set_rlog v s := mkst (parts s) (fulls s) (waits s) (cmps s) (finals s) v (heap s) (cache s) (wait s) (locks s) (vq s) (fq s) (ctime s) (ready s) (flcks s).
+Definition set_heap v s := mkst (parts s) (fulls s) (waits s) (cmps s) (finals s) (rlog s) v (cache s) (wait s) (locks s) (vq s) (fq s) (ctime s) (ready s) (flcks s).
+Definition set_cache v s := mkst (parts s) (fulls s) (waits s) (cmps s) (finals s) (rlog s) (heap s) v (wait s) (locks s) (vq s) (fq s) (ctime s) (ready s) (flcks s).
+Definition set_wait v s := mkst (parts s) (fulls s) (waits s) (cmps s) (finals s) (rlog s) (heap s) (cache s) v (locks s) (vq s) (fq s) (ctime s) (ready s) (flcks s).
+Definition set_locks v s := mkst (parts s) (fulls s) (waits s) (cmps s) (finals s) (rlog s) (heap s) (cache s) (wait s) v (vq s) (fq s) (ctime s) (ready s) (flcks s).
+Definition set_vq v s := mkst (parts s) (fulls s) (waits s) (cmps s) (finals s) (rlog s) (heap s) (cache s) (wait s) (locks s) v (fq s) (ctime s) (ready s) (flcks s).
+Definition set_fq v s := mkst (parts s) (fulls s) (waits s) (cmps s) (finals s) (rlog s) (heap s) (cache s) (wait s) (locks s) (vq s) v (ctime s) (ready s) (flcks s).
+Definition set_ctime v s := mkst (parts s) (fulls s) (waits s) (cmps s) (finals s) (rlog s) (heap s) (cache s) (wait s) (locks s) (vq s) (fq s) v (ready s) (flcks s).
+Definition set_ready v s := mkst (parts s) (fulls s) (waits s) (cmps s) (finals s) (rlog s) (heap s) (cache s) (wait s) (locks s) (vq s) (fq s) (ctime s) v (flcks s).
 
 Definition dflt_ff : ffile := mkff [] [] [] 0 [] ST_UNKNOWN 0 false false.
 Definition obj (s : stage) (o : nat) : ffile := nth o (heap s) dflt_ff.
@@ -447,7 +448,7 @@ Definition timers_fire (s : stage) : stage :=
 
 (* ---- restart: process death at quiescence, New, Recover ----------------------- *)
 Definition crash (s : stage) : stage :=
-  mkst (parts s) (fulls s) (waits s) (cmps s) (finals s) (rlog s) [] [] [] [] [] [] 0 true.
+  mkst (parts s) (fulls s) (waits s) (cmps s) (finals s) (rlog s) [] [] [] [] [] [] 0 true (flcks s).
 
 Definition comp_to_obj (n : name) (c : comp) (st : Z) : ffile :=
   mkff n (c_renamed c) (c_prev c) (c_size c) (c_hash c) st 0 false false.
@@ -494,7 +495,8 @@ Inductive sop :=
 | OTimers
 | ORestart (now : Z)
 | OAge (n : name)                       (* the partial's mtime becomes older than the cleaning age *)
-| OTamper (n : name) (ext : Z) (data : list Z).   (* overwrite a staged body: 0 part 1 full 2 wait *)
+| OTamper (n : name) (ext : Z) (data : list Z)   (* overwrite a staged body: 0 part 1 full 2 wait *)
+| OImage (img : stage).                         (* process death: the durable state found on disk, volatile state gone *)
 
 Inductive sout :=
 | RNone | RBool (b : bool) | RNum (z : Z) | RScan (l : list (name * comp)).
@@ -521,4 +523,5 @@ Definition sstep (H : list Z -> name) (s : stage) (op : sop) : stage * sout :=
         else if ext =? 1 then
           (if ahas n (fulls s) then set_fulls (aset n d (fulls s)) s else s)
         else (if ahas n (waits s) then set_waits (aset n d (waits s)) s else s)), RNone)
+  | OImage img => (crash img, RNone)
   end.
